@@ -1,26 +1,55 @@
 //! Harness access module, compiled *inside* the mounted crate (appended to its lib.rs by
-//! tools/mount.py) so that it can reach `pub(crate)` items.  It only forwards; it contains no
-//! logic the properties talk about.
-use crate::injector_core::common::{FuncPtrInternal, PatchGuard};
-use crate::injector_core::patch_trait::PatchTrait;
-use std::ptr::NonNull;
+//! tools/mount.py).  It only forwards; it contains no logic the properties talk about.
+//!
+//! Everything that names a *private* item of the repository is behind a cargo feature of its own
+//! (a "seam"), so that a refactor which renames or restructures private code costs at most the
+//! sub-domain that needed that seam, never the build:
+//!
+//! * no feature: the x86-64 back-end through the crate's **public** API only;
+//! * `seam_arm64` / `seam_arm32`: the AArch64 / 32-bit ARM back-ends, called through the private
+//!   `PatchTrait` implementations (the public API dispatches by `cfg(target_arch)` and can only
+//!   reach the host's back-end);
+//! * `seam_macsim`: the copy of `patch_arm64.rs` with the macOS branch selected;
+//! * `seam_macenc`: the macOS entry encoder as a pure function;
+//! * `priv_amd64` / `priv_arm64` / `priv_macsim`: module-private encoder entry points (R4).
+use crate::interface::injector::{FuncPtr, InjectorPP};
 
 pub use libc::venv;
 
-/// Owns one installation made below the public API; dropping it runs the crate's `PatchGuard::drop`.
-pub struct Guard(#[allow(dead_code)] PatchGuard);
+/// Owns one installation; dropping it removes the installation the way the crate does.
+pub enum Guard {
+    /// made through the public API: the injector owns the patch
+    Public(#[allow(dead_code)] Box<InjectorPP>),
+    #[cfg(any(feature = "seam_arm64", feature = "seam_arm32", feature = "seam_macsim", feature = "priv_amd64"))]
+    Raw(#[allow(dead_code)] crate::injector_core::common::PatchGuard),
+}
 
 #[derive(Clone, Copy, Debug, PartialEq, Eq, Hash)]
 pub enum Backend {
-    /// through `WhenCalled` (internal.rs), i.e. what the public API dispatches to on this host
+    /// what the public API dispatches to on this host
     Amd64,
     Arm64Linux,
     Arm64MacEncoder,
     Arm32,
 }
 
-unsafe fn fpi(addr: usize) -> FuncPtrInternal {
-    FuncPtrInternal::new(NonNull::new(addr as *mut ()).expect("null address in harness"))
+pub const HAS_ARM64: bool = cfg!(feature = "seam_arm64");
+pub const HAS_ARM32: bool = cfg!(feature = "seam_arm32");
+pub const HAS_MACSIM: bool = cfg!(feature = "seam_macsim");
+pub const HAS_MACENC: bool = cfg!(feature = "seam_macenc");
+
+pub fn has(b: Backend) -> bool {
+    match b {
+        Backend::Amd64 => true,
+        Backend::Arm64Linux => HAS_ARM64,
+        Backend::Arm64MacEncoder => HAS_MACSIM,
+        Backend::Arm32 => HAS_ARM32,
+    }
+}
+
+#[cfg(any(feature = "seam_arm64", feature = "seam_arm32", feature = "seam_macsim", feature = "priv_amd64"))]
+unsafe fn fpi(addr: usize) -> crate::injector_core::common::FuncPtrInternal {
+    crate::injector_core::common::FuncPtrInternal::new(std::ptr::NonNull::new(addr as *mut ()).expect("null address in harness"))
 }
 
 /// Install "calls to `src` go to `target`" with the given back-end.
@@ -28,17 +57,32 @@ unsafe fn fpi(addr: usize) -> FuncPtrInternal {
 /// # Safety
 /// `src` must be the address of patchable memory of at least 16 bytes.
 pub unsafe fn replace(b: Backend, src: usize, target: usize) -> Guard {
-    let (s, t) = (fpi(src), fpi(target));
-    Guard(match b {
-        Backend::Amd64 => crate::injector_core::internal::WhenCalled::new(s).will_execute_guard(t),
+    match b {
+        Backend::Amd64 => {
+            let mut injector = Box::new(InjectorPP::new());
+            injector
+                .when_called_unchecked(FuncPtr::new(src as *const (), ""))
+                .will_execute_raw_unchecked(FuncPtr::new(target as *const (), ""));
+            Guard::Public(injector)
+        }
+        #[cfg(feature = "seam_arm64")]
         Backend::Arm64Linux => {
-            crate::injector_core::patch_arm64::PatchArm64::replace_function_with_other_function(s, t)
+            use crate::injector_core::patch_trait::PatchTrait;
+            Guard::Raw(crate::injector_core::patch_arm64::PatchArm64::replace_function_with_other_function(fpi(src), fpi(target)))
         }
+        #[cfg(feature = "seam_macsim")]
         Backend::Arm64MacEncoder => {
-            crate::patch_arm64_macsim::PatchArm64::replace_function_with_other_function(s, t)
+            use crate::injector_core::patch_trait::PatchTrait;
+            Guard::Raw(crate::patch_arm64_macsim::PatchArm64::replace_function_with_other_function(fpi(src), fpi(target)))
         }
-        Backend::Arm32 => crate::injector_core::patch_arm::PatchArm::replace_function_with_other_function(s, t),
-    })
+        #[cfg(feature = "seam_arm32")]
+        Backend::Arm32 => {
+            use crate::injector_core::patch_trait::PatchTrait;
+            Guard::Raw(crate::injector_core::patch_arm::PatchArm::replace_function_with_other_function(fpi(src), fpi(target)))
+        }
+        #[allow(unreachable_patterns)]
+        other => panic!("harness: back-end {other:?} is not reachable in this build (seam feature off)"),
+    }
 }
 
 /// Install "calls to `src` return `value`".
@@ -46,53 +90,61 @@ pub unsafe fn replace(b: Backend, src: usize, target: usize) -> Guard {
 /// # Safety
 /// as for [`replace`].
 pub unsafe fn replace_bool(b: Backend, src: usize, value: bool) -> Guard {
-    let s = fpi(src);
-    Guard(match b {
-        Backend::Amd64 => crate::injector_core::internal::WhenCalled::new(s).will_return_boolean_guard(value),
-        Backend::Arm64Linux => crate::injector_core::patch_arm64::PatchArm64::replace_function_return_boolean(s, value),
-        Backend::Arm64MacEncoder => {
-            crate::patch_arm64_macsim::PatchArm64::replace_function_return_boolean(s, value)
+    match b {
+        Backend::Amd64 => {
+            let mut injector = Box::new(InjectorPP::new());
+            injector.when_called(FuncPtr::new(src as *const (), "fn() -> bool")).will_return_boolean(value);
+            Guard::Public(injector)
         }
-        Backend::Arm32 => crate::injector_core::patch_arm::PatchArm::replace_function_return_boolean(s, value),
-    })
+        #[cfg(feature = "seam_arm64")]
+        Backend::Arm64Linux => {
+            use crate::injector_core::patch_trait::PatchTrait;
+            Guard::Raw(crate::injector_core::patch_arm64::PatchArm64::replace_function_return_boolean(fpi(src), value))
+        }
+        #[cfg(feature = "seam_macsim")]
+        Backend::Arm64MacEncoder => {
+            use crate::injector_core::patch_trait::PatchTrait;
+            Guard::Raw(crate::patch_arm64_macsim::PatchArm64::replace_function_return_boolean(fpi(src), value))
+        }
+        #[cfg(feature = "seam_arm32")]
+        Backend::Arm32 => {
+            use crate::injector_core::patch_trait::PatchTrait;
+            Guard::Raw(crate::injector_core::patch_arm::PatchArm::replace_function_return_boolean(fpi(src), value))
+        }
+        #[allow(unreachable_patterns)]
+        other => panic!("harness: back-end {other:?} is not reachable in this build (seam feature off)"),
+    }
 }
 
 /// The macOS entry encoder (pure function of two addresses).
+#[cfg(feature = "seam_macenc")]
 pub fn macos_entry_words(pc: usize, target: usize) -> Vec<u32> {
     crate::injector_core::arm64_codegenerator::maybe_emit_long_jump(pc, target)
-}
-
-/// Trampoline allocator, as the back-ends call it.
-///
-/// # Safety
-/// none beyond `src != 0`; the returned page is owned by the caller.
-pub unsafe fn allocate_jit(src: usize, size: usize) -> *mut u8 {
-    crate::injector_core::common::allocate_jit_memory(&fpi(src), size)
 }
 
 /// # Safety
 /// as for [`replace`]; `jit` need not be a mapping the allocator returned (the caller must then
 /// `mem::forget` the guard).
-#[cfg(feature = "priv_access")]
+#[cfg(all(feature = "priv_arm64", feature = "seam_arm64"))]
 pub unsafe fn arm64_apply_branch_patch(src: usize, jit: usize, size: usize, orig: &[u8]) -> Guard {
-    Guard(crate::injector_core::patch_arm64::__verif_access::apply(fpi(src), jit as *mut u8, size, orig))
+    Guard::Raw(crate::injector_core::patch_arm64::__verif_access::apply(fpi(src), jit as *mut u8, size, orig))
 }
 
 /// # Safety
 /// as for [`arm64_apply_branch_patch`] (macOS branch of the entry encoder).
-#[cfg(feature = "priv_access")]
+#[cfg(all(feature = "priv_macsim", feature = "seam_macsim"))]
 pub unsafe fn arm64mac_apply_branch_patch(src: usize, jit: usize, size: usize, orig: &[u8]) -> Guard {
-    Guard(crate::patch_arm64_macsim::__verif_access::apply(fpi(src), jit as *mut u8, size, orig))
+    Guard::Raw(crate::patch_arm64_macsim::__verif_access::apply(fpi(src), jit as *mut u8, size, orig))
 }
 
-#[cfg(feature = "priv_access")]
+#[cfg(feature = "priv_amd64")]
 pub fn amd64_branch(ori: usize, target: usize) -> Vec<u8> {
     crate::injector_core::patch_amd64::__verif_access::branch(ori, target)
 }
 
 /// # Safety
 /// as for [`arm64_apply_branch_patch`].
-#[cfg(feature = "priv_access")]
+#[cfg(feature = "priv_amd64")]
 pub unsafe fn amd64_patch_and_guard(src: usize, jit: usize, size: usize) -> Guard {
-    Guard(crate::injector_core::patch_amd64::__verif_access::patch(fpi(src), jit as *mut u8, size))
+    Guard::Raw(crate::injector_core::patch_amd64::__verif_access::patch(fpi(src), jit as *mut u8, size))
 }
